@@ -87,19 +87,35 @@ func (t *tree) doRemove(
 
 		var changed bool
 		var existing []byte
+		var child **node.Pointer
 		if key.BitLength() < bitLength {
 			// Lookup key is too short for the current n.Label, so it doesn't exist.
 			return ptr, false, nil, nil
 		} else if key.BitLength() == bitLength {
-			n.LeafNode, changed, existing, err = t.doRemove(ctx, n.LeafNode, bitLength, key)
+			child = &n.LeafNode
 		} else if key.GetBit(bitLength) {
-			n.Right, changed, existing, err = t.doRemove(ctx, n.Right, bitLength, key)
+			child = &n.Right
 		} else {
-			n.Left, changed, existing, err = t.doRemove(ctx, n.Left, bitLength, key)
+			child = &n.Left
 		}
+
+		// Make sure both children are available before anything is removed, so that a failed
+		// fetch cannot leave a partially applied removal behind.
+		if _, err = t.cache.derefNodePtr(ctx, n.Left, t.newFetcherSyncGet(key, true)); err != nil {
+			return nil, false, nil, err
+		}
+		if _, err = t.cache.derefNodePtr(ctx, n.Right, t.newFetcherSyncGet(key, true)); err != nil {
+			return nil, false, nil, err
+		}
+
+		// NOTE: The child pointer must only be replaced on success as a failed removal must not
+		//       have any effect on the tree.
+		var newChild *node.Pointer
+		newChild, changed, existing, err = t.doRemove(ctx, *child, bitLength, key)
 		if err != nil {
 			return nil, false, existing, err
 		}
+		*child = newChild
 
 		// Fetch and check the remaining children.
 		var remainingLeaf node.Node
